@@ -345,7 +345,7 @@ func TestVerifC04(t *testing.T) {
 	h.emit(out, "prelude-capacity")
 
 	r := vfNewRand(out.Seed)
-	nHist := out.Scale(60, 1500)
+	nHist := out.Scale(60, 800)
 	total := 0
 	for i := 0; i < nHist; i++ {
 		hr := r.Fork(uint64(i))
